@@ -87,7 +87,12 @@ func newC14Pair(ca, cb jsonrpc2.Codec, limit, discard int) *c14Pair {
 }
 
 // c14Round runs one round of concurrent callers on both ends.
+var c14Stalls int32 // rounds that stalled; after a few the remaining rounds are skipped (the verdict is already a violation)
+
 func c14Round(ev *vlib.Evidence, transport string, idx int) {
+	if atomic.LoadInt32(&c14Stalls) >= 3 {
+		return
+	}
 	r := vlib.Rand("C14-"+transport, idx)
 	var pair *c14Pair
 	var rn *vlib.ReorderNet
@@ -283,6 +288,7 @@ func c14Round(ev *vlib.Evidence, transport string, idx int) {
 	close(done)
 	desc := fmt.Sprintf("%s callers/side=%d calls/caller=%d maxdepth=%d cancelshare=%d pendinglimit=%d", transport, callers, perCaller, maxDepth, cancelShare, limit)
 	if atomic.LoadInt32(&stalled) == 1 {
+		atomic.AddInt32(&c14Stalls, 1)
 		ev.Violate("stall:"+transport, map[string]interface{}{"case": desc, "index": idx, "ok": okCalls, "note": "no message delivered and no call completed for 15 s while calls were outstanding"})
 	}
 	seen := map[string]bool{}
